@@ -254,6 +254,20 @@ class Stream(APIRegisterMixin):
         else:
             self.upstreams = []
 
+        # a request that conflicts with what the pipeline(s) this node extends
+        # already know is refused before anything is changed
+        loops = [] if loop is None else [loop]
+        modes = set() if asynchronous is None else {bool(asynchronous)}
+        for upstream in self.upstreams:
+            if upstream:
+                for known in upstream._pipeline_knowledge(modes)[0]:
+                    if not any(known is other for other in loops):
+                        loops.append(known)
+        if len(loops) > 1:
+            raise ValueError("Two different event loops active")
+        if len(modes) > 1:
+            raise ValueError("Stream has both asynchronous and synchronous elements")
+
         self._set_asynchronous(asynchronous)
         self._set_loop(loop)
         if ensure_io_loop and not self.loop and self.asynchronous is None:
